@@ -17,6 +17,8 @@
 /* Forward declaration from page_writer.c */
 typedef struct carquet_page_writer carquet_page_writer_t;
 
+extern void carquet_page_writer_set_unsigned_order(carquet_page_writer_t* writer, bool enabled);
+
 extern carquet_page_writer_t* carquet_page_writer_create(
     carquet_physical_type_t type,
     carquet_encoding_t encoding,
@@ -88,6 +90,12 @@ typedef struct carquet_column_writer_internal {
  * Column Writer Lifecycle
  * ============================================================================
  */
+
+void carquet_column_writer_set_unsigned_order(carquet_column_writer_internal_t* writer, bool enabled) {
+    if (writer) {
+        carquet_page_writer_set_unsigned_order(writer->page_writer, enabled);
+    }
+}
 
 carquet_column_writer_internal_t* carquet_column_writer_create(
     carquet_physical_type_t type,
